@@ -179,6 +179,21 @@ static void run_seq(void)
 static void run_ramp(void)
 {
     /* allocate up to `target` objects; at every step a deviation may free instead */
+    if (g_sparse) {
+        /* a chunk of several GiB: where the environment cannot map two of them (address-space or overcommit limits) the
+         * ramp is not run - that says nothing about the library, and is visible in the evidence as zero transitions */
+        void *probe1 = NULL, *probe2 = NULL;
+        const size_t chunk = objsz * (size_t)objnum;
+        const bool ok = posix_memalign(&probe1, 4096, chunk) == 0 && probe1 != NULL
+                        && posix_memalign(&probe2, 4096, chunk) == 0 && probe2 != NULL;
+        free(probe1);
+        free(probe2);
+        if (!ok) {
+            vx_trace("ramp skipped: cannot map two chunks of %zu bytes\n", chunk);
+            vx_outcome(0);
+            return;
+        }
+    }
     fresh();
     const int target = (int)vx_opt_int("target", 66);
     int guard = 0;
